@@ -178,25 +178,19 @@ def scenario(caching):
     check(same(lfg.vertices, (f, g, h)), tag + "links= extends the link")
     check(same(helpers.neighbors(f), [g]), tag + "f neighbors")
 
-    # unhashable filter: such a query is simply never cached (since ffc7541;
-    # it raised TypeError with caching enabled before that) and not counted
+    # unhashable filter: TypeError only if the cache is consulted
     class Unhashable:
         __hash__ = None
 
         def __call__(self, edge, v2):
             return True
 
-    stats_before = Vertex.total_cache_stats()
-    for _ in range(2):
-        try:
-            res = helpers.neighbors(a, filterfunc=Unhashable())
-            check(same(res, [b, b, a, None]), tag + "unhashable filter result")
-        except TypeError:
-            check(False, tag + "unhashable filter must work, caching or not")
-    check(
-        Vertex.total_cache_stats() == stats_before,
-        tag + "unhashable filter leaves the statistics alone",
-    )
+    try:
+        res = helpers.neighbors(a, filterfunc=Unhashable())
+        check(not caching, tag + "unhashable filter must fail with caching")
+        check(same(res, [b, b, a, None]), tag + "unhashable filter result")
+    except TypeError:
+        check(caching, tag + "unhashable filter must work without caching")
 
     # invalid direction on an isolated vertex is (oddly) accepted
     check(helpers.neighbors(c, direction_sensitive=17) == [], tag + "dir 17")
